@@ -31,7 +31,19 @@ def process_sets(quick):
     """Bounded process sets explored exhaustively (measured: 25k-56k distinct states each for the quick six,
     0.3-1.5M for the thorough reader/writer/three-handshaker sets; the full set h1,h2,reader,writer,Close has 7.6M
     states and three handshakers with two cancels and Close 7.0M: both were run once by hand, no violation)."""
+    if quick:
+        # the three shapes that matter most, each small (a few thousand to ~35k states), plus one stalling peer
+        return [
+            C(["h1", "h2"], ["h1", "h2"], ["h2"]),                          # two handshakers + canceller (cancelled waiter, late cancel of h1)
+            C(["h1"], ["h1"], ["h1"], closer="Close"),                      # handshaker + canceller + closer
+            C(["h1"], ["h1"], ["h1"], reader=True, writer=True),            # handshaker + reader + writer
+            C(["h1"], ["h1"], ["h1"], peer="stall"),                        # deadline path
+        ]
     s = [
+        C(["h1", "h2"], ["h1", "h2"], ["h2"]),
+        C(["h1"], ["h1"], ["h1"], closer="Close"),
+        C(["h1"], ["h1"], ["h1"], reader=True, writer=True),
+        C(["h1"], ["h1"], ["h1"], peer="stall"),
         C(["h1", "h2"], ["h2"], ["h2"], closer="Close"),
         C(["h1", "h2"], ["h2"], ["h2"], closer="Close", peer="stall"),
         C(["h1", "h2"], ["h1", "h2"], ["h1", "h2"]),
@@ -39,17 +51,16 @@ def process_sets(quick):
         C(["h1"], ["h1"], ["h1"], reader=True, closer="CloseWrite"),
         C(["h1"], ["h1"], ["h1"], writer=True, closer="Close"),
     ]
-    if not quick:
-        s += [
-            C(["h1", "h2"], ["h1", "h2"], ["h1", "h2"], peer="stall"),
-            C(["h1", "h2"], ["h2"], [], closer="Close"),
-            C(["h1"], ["h1"], ["h1"], reader=True, writer=True, closer="Close"),
-            C(["h1", "h2"], ["h2"], ["h2"], reader=True, closer="CloseWrite"),
-            C(["h1", "h2"], ["h2"], ["h2"], writer=True, closer="Close"),
-            C(["h1", "h2", "h3"], ["h2", "h3"], ["h2"]),
-            C(["h1", "h2", "h3"], ["h2", "h3"], ["h2", "h3"]),
-            C(["h1", "h2", "h3"], ["h2"], ["h2"], closer="Close"),
-        ]
+    s += [
+        C(["h1", "h2"], ["h1", "h2"], ["h1", "h2"], peer="stall"),
+        C(["h1", "h2"], ["h2"], [], closer="Close"),
+        C(["h1"], ["h1"], ["h1"], reader=True, writer=True, closer="Close"),
+        C(["h1", "h2"], ["h2"], ["h2"], reader=True, closer="CloseWrite"),
+        C(["h1", "h2"], ["h2"], ["h2"], writer=True, closer="Close"),
+        C(["h1", "h2", "h3"], ["h2", "h3"], ["h2"]),
+        C(["h1", "h2", "h3"], ["h2", "h3"], ["h2", "h3"]),
+        C(["h1", "h2", "h3"], ["h2"], ["h2"], closer="Close"),
+    ]
     return s
 
 
@@ -131,7 +142,7 @@ def validate(ctx, results, tag, nshards, diag=False):
         fn = "conc_trace_%s_%d.ndjson" % (tag, k)
         ctx.write_ndjson(fn, [row(r, i + 1) for i, r in enumerate(part)])
         mod = module_copy(ctx, "UConnConc_Trace", "%s_%d" % (tag, k), {"conc_trace.ndjson": fn})
-        return k, ctx.tlc(mod, cfg="UConnConc_TraceDiag" if diag else "UConnConc_Trace", workers=1 if diag else 2, timeout=1500)
+        return k, ctx.tlc(mod, cfg="UConnConc_TraceDiag" if diag else "UConnConc_Trace", workers=1 if diag else 3, timeout=1500)
     acc, outs = set(), []
     with cf.ThreadPoolExecutor(max_workers=max(1, min(nshards, 8))) as ex:
         for k, res in ex.map(shard, range(nshards)):
@@ -205,7 +216,7 @@ def run(ctx):
 
     findings_races = []
     # ---- 1. hook-free runs under the race detector (seeded random delays)
-    n_bare = 10 if quick else 60
+    n_bare = 8 if quick else 60
     bare_scs = [scen("bare", c, max_us=rnd.choice([0, 100, 500, 2000, 6000])) for c in sets for _ in range(n_bare)]
     bare, races = run_harness(ctx, bare_scs, "bare", par=12)
     findings_races += [("bare", x) for x in races]
@@ -222,10 +233,15 @@ def run(ctx):
                     tmax=tmax, hung=hung, deadline=r["cfg"]["deadline"], slack=r["cfg"]["slack"])
     obs_all = [summary(r) for r in bare]
 
-    # ---- 2. exhaustive interleavings per process set: invariants, schedules, explanation of the bare outcomes
-    def mc_shard(i):
-        c = sets[i]
-        idx = [j for j, o in enumerate(obs_all) if cfg_key(o["cfg"]) == cfg_key(c)]
+    # ---- 2-4. model runs, all started together:
+    #   MC    every interleaving per process set: invariants, action properties, deadlock; explains the bare outcomes
+    #   Sched schedules a gate scheduler can follow (one per distinct terminal state of the scheduler-paced relation)
+    #   Sim   more schedules by random simulation of the same relation
+    #   Live  every call returns (the state graph is acyclic, so this is cheap)
+    groups = [list(range(len(sets)))] if quick else [[i] for i in range(len(sets))]
+
+    def mc_shard(g):
+        idx = [j for j, o in enumerate(obs_all) if any(cfg_key(o["cfg"]) == cfg_key(sets[i]) for i in g)]
         obs = [obs_all[j] for j in idx]
         # binding canary for the outcome check: "h1 returned nil although the handshake never completed" is
         # never a reachable outcome and must stay unexplained
@@ -235,27 +251,35 @@ def run(ctx):
             canary["complete"] = False
             canary["ret"]["h1"] = dict(canary["ret"]["h1"], isnil=True, err="", ctxerr="")
             obs = obs + [canary]
-        res = run_mc(ctx, [c], obs, "s%d" % i, workers=4 if quick else 6)
-        return i, idx, res, canary is not None
-    mc_results = []
-    with cf.ThreadPoolExecutor(max_workers=3 if quick else 2) as ex:
-        for i, idx, res, has_canary in ex.map(mc_shard, range(len(sets))):
-            if res.violated:
-                raise vlib.Machinery("model-level violation in UConnConc_MC for set %s: %s (the as-is model is expected to satisfy its properties; "
-                                     "a change of the model must be replayed on the code first)" % (cfg_key(sets[i]), res.violated))
-            mc_results.append((i, idx, res, has_canary))
+        res = run_mc(ctx, [sets[i] for i in g], obs, "s%d" % g[0], workers=8 if quick else 5)
+        return g, idx, res, canary is not None
+    n_sim = 120 if quick else 1500
+    live_sets = [sets[0], sets[3]] if quick else sets[:12]
+
+    def live_run():
+        ctx.write_json("conc_mc.json", {"cfgs": live_sets, "obs": []})
+        return ctx.tlc("UConnConc_Live", workers=3, timeout=1500)
+    with cf.ThreadPoolExecutor(max_workers=4 if quick else 3) as ex:
+        f_sched = ex.submit(run_mc, ctx, sets, [], "sched", 3, None, False, True)
+        f_sim = ex.submit(run_mc, ctx, sets, [], "sim", 3, (n_sim, ctx.seed))
+        f_live = ex.submit(live_run)
+        f_mc = [ex.submit(mc_shard, g) for g in groups]
+        sched, sim, live = f_sched.result(), f_sim.result(), f_live.result()
+        mc_results = [f.result() for f in f_mc]
+    for g, idx, res, has_canary in mc_results:
+        if res.violated:
+            raise vlib.Machinery("model-level violation in UConnConc_MC for set(s) %s: %s (the as-is model is expected to satisfy its properties; "
+                                 "a change of the model must be replayed on the code first)" % ([cfg_key(sets[i]) for i in g], res.violated))
     unexplained, explained = [], 0
-    for i, idx, res, has_canary in mc_results:
+    for g, idx, res, has_canary in mc_results:
         hits = {int(h) for h in res.tagged("HIT")}
         if has_canary and (len(idx) + 1) in hits:
-            raise vlib.Machinery("outcome canary accepted (nil return without completed handshake was explained) for set %s" % cfg_key(sets[i]))
+            raise vlib.Machinery("outcome canary accepted (nil return without completed handshake was explained) for set(s) %s" % g)
         for n, j in enumerate(idx):
             if (n + 1) in hits:
                 explained += 1
             else:
                 unexplained.append(j)
-    # schedules a gate scheduler can follow: one per distinct terminal state of the scheduler-paced relation
-    sched = run_mc(ctx, sets, [], "sched", workers=4, sched=True)
     if sched.violated:
         raise vlib.Machinery("model-level violation in UConnConc_Sched: %s" % sched.violated)
     schedules = scns_of(sched)
@@ -263,16 +287,8 @@ def run(ctx):
         raise vlib.Machinery("no schedule emitted")
     ctx.traces += explained
     mc_terminal = len(schedules)
-    # ---- 3. liveness: every call returns (small sets; the state graph is acyclic so this is cheap)
-    live_sets = sets[:3] if quick else sets[:10]
-    ctx.write_json("conc_mc.json", {"cfgs": live_sets, "obs": []})
-    live = ctx.tlc("UConnConc_Live", workers=4, timeout=1500)
     if live.violated:
         raise vlib.Machinery("model-level liveness violation in UConnConc_Live: %s" % live.violated)
-
-    # ---- 4. more schedules: random deep interleavings (simulation) of the same sets
-    n_sim = 150 if quick else 1500
-    sim = run_mc(ctx, sets, [], "sim", workers=4, sim=(n_sim, ctx.seed))
     if sim.violated:
         raise vlib.Machinery("model-level violation in simulation: %s" % sim.violated)
     sim_scn = scns_of(sim)
@@ -280,18 +296,18 @@ def run(ctx):
     taken = set()
     for s_ in schedules + sim_scn:
         taken |= set(s_.get("taken", []))
-    missing = [a for a in NEED_ACTIONS if a not in taken]
+    missing = [a for a in NEED_ACTIONS if a not in taken and not (quick and a in ("CWCheck", "CWNotify"))]   # no CloseWrite set in quick
     if missing:
         raise vlib.Machinery("vacuity: internal actions on no emitted model path: %s" % missing)
     rnd.shuffle(schedules)
-    cap = 220 if quick else 2500
+    cap = 150 if quick else 2500
     replay_list = (schedules + sim_scn)[:cap] if len(schedules) + len(sim_scn) > cap else schedules + sim_scn
     if len(schedules) > cap // 2:   # keep both kinds
         replay_list = schedules[:cap // 2] + sim_scn[:cap - cap // 2]
 
     # ---- 5. replay through the gates + ordered stress runs, all under the race detector
     rep_scs = [scen("replay", norm_cfg(s["cfg"]), hist=s["hist"]) for s in replay_list]
-    n_stress = 6 if quick else 40
+    n_stress = 5 if quick else 40
     stress_scs = [scen("stress", c, max_us=rnd.choice([0, 50, 300, 1500, 5000])) for c in sets for _ in range(n_stress)]
     ordered, races = run_harness(ctx, rep_scs + stress_scs, "ordered", par=24)
     findings_races += [("ordered", x) for x in races]
@@ -301,7 +317,7 @@ def run(ctx):
         raise vlib.Machinery("only %d of %d TLC schedules could be followed through the gates" % (faithful, n_replay))
 
     # ---- 6. trace validation
-    acc, _ = validate(ctx, ordered, "v", 8 if quick else 14)
+    acc, _ = validate(ctx, ordered, "v", 4 if quick else 14)
     ctx.traces += len(acc)
     rejected = [i for i in range(len(ordered)) if i not in acc]
 
@@ -366,7 +382,7 @@ def run(ctx):
     canaries = make_canaries(good)
     if len(canaries) < 4 and not ctx.findings:
         raise vlib.Machinery("could not build the binding canaries (%d)" % len(canaries))
-    cacc, _ = validate(ctx, [c for (_, c) in canaries], "canary", 2)
+    cacc, _ = validate(ctx, [c for (_, c) in canaries], "canary", 1)
     if cacc:
         raise vlib.Machinery("binding canary accepted: %s" % [canaries[i][0] for i in sorted(cacc)])
 
